@@ -90,7 +90,8 @@ def objLists (j : Json) : List (Comp.Name × List Comp.Name) :=
 
 def modOf (inp dig : Json) : Mod :=
   { mode := charsD inp "mode", visFile := charsD (fieldD inp "cfg" Json.null) "vis" == "file".toList, schemas := namesD inp "schemas", items := (listD dig "items").map itemOf,
-    imports := objLists (fieldD dig "imports" Json.null), mentions := objLists (fieldD dig "mentions" Json.null) }
+    imports := objLists (fieldD dig "imports" Json.null), mentions := objLists (fieldD dig "mentions" Json.null),
+    constMentions := objLists (fieldD dig "const_mentions" Json.null) }
 
 def errOf (j : Json) : RErr :=
   { code := charsD j "code", file := charsD j "file", ikind := charsD j "ikind", iname := charsD j "iname", name := charsD j "name", trait := charsD j "trait" }
@@ -114,6 +115,7 @@ def violStr : Viol → String
   | .serverDurationHeader it => s!"{String.ofList it}: a chrono::Duration header member is read with str::parse, but TimeDelta has no FromStr"
   | .aliasCycle it => s!"type alias {String.ofList it} expands to itself"
   | .missingImport n => s!"derive({String.ofList n}) is used unqualified but not imported"
+  | .undefinedConst n => s!"constant {String.ofList n} is used but not defined"
   | .headerParseNoFromStr it t => s!"{String.ofList it}: a header member of type {String.ofList t} is built with str::parse, but {String.ofList t} has no FromStr"
   | .ctorBoxMismatch it v => s!"enum {String.ofList it}: the helper constructor of variant {String.ofList v} and the variant's payload type disagree about Box"
 
